@@ -219,12 +219,11 @@ def _structural_part(chk, m):
     meta = ix.get_class("LRMeta")
     prop = meta.lookup("lr_type_struct")
     chk.consult(prop)
-    stores = [n for n in walk_local(prop.node) if isinstance(n, ast.Assign)
-              and any(isinstance(t, ast.Attribute) for t in n.targets)]
-    recv = prop.param_names[0]
-    ok = bool(stores) and all(isinstance(t.value, ast.Name) and t.value.id == recv
-                              for n in stores for t in n.targets if isinstance(t, ast.Attribute)) \
-        and all(f"{recv}.logical_record_type" in norm(n.value) for n in stores)
+    from ..terms import A as _A, contains as _contains, is_call as _is_call, call_arg as _call_arg, pp as _pp
+    psum = chk.summary(prop)
+    recv = ("param", prop.param_names[0])
+    sts = [e for e in psum.effects if e.kind == "store_attr"]
+    ok = bool(sts) and all(e.base == recv and _contains(e.value, _A(recv, "logical_record_type")) for e in sts)
     chk.require(ok, "R02.3", "type-byte-memo-per-class",
                 "the memoised record-type byte is not stored on / computed from the receiving class itself", prop.where)
     new = meta.lookup("__new__")
@@ -236,20 +235,16 @@ def _structural_part(chk, m):
                 meta.where)
     rab = ix.get_method("LogicalRecord", "represent_as_bytes")
     chk.consult(rab)
-    src = norm(rab.node)
-    ok = "self._make_body_bytes()" in src and "lr_type_struct=self.__class__.lr_type_struct" in src.replace(" ", "") \
-        .replace("lr_type_struct=self.__class__.lr_type_struct", "lr_type_struct=self.__class__.lr_type_struct") \
-        or ("lr_type_struct" in src and "is_eflr" in src)
-    calls = [n for n in walk_local(rab.node) if isinstance(n, ast.Call)]
-    ctor = [n for n in calls if ix.infer(n.func, Scope(ix, rab)) == ("cls", lrb)]
-    good = False
-    if len(ctor) == 1:
-        c = ctor[0]
-        args = {k.arg: norm(k.value) for k in c.keywords}
-        pos = [norm(a) for a in c.args]
-        body_arg = pos[0] if pos else args.get("bts")
-        good = body_arg == "self._make_body_bytes()" and args.get("is_eflr", pos[2] if len(pos) > 2 else None) \
-            == "self.is_eflr" and "lr_type_struct" in args.get("lr_type_struct", pos[1] if len(pos) > 1 else "")
+    from ..terms import SELF as _SELF, return_alternatives as _ra
+    rs = chk.summary(rab)
+    made = [t for _, t in _ra(rs)]
+    good = bool(made)
+    for t in made:
+        body_arg = _call_arg(t, 0, "bts")
+        kind = _call_arg(t, 2, "is_eflr")
+        tb = _call_arg(t, 1, "lr_type_struct")
+        good = good and _is_call(t, lrb.name) and _is_call(body_arg, "_make_body_bytes", 0) and body_arg[1][1] == _SELF \
+            and kind == _A(_SELF, "is_eflr") and tb is not None and tb[0] == "attr" and tb[2] == "lr_type_struct"
     chk.require(good, "R02.3", "body-and-kind-passed-unmodified",
                 "represent_as_bytes does not hand the unmodified body, the class's type byte and is_eflr to the "
                 "segmenting wrapper", rab.where)
